@@ -73,7 +73,7 @@ theorem congR_stores (cx : Ctx) (imms : List String) {a b : World} (hw : SameW [
 inductive OpKind (K : RK) (op : String) : Prop
   | framed : framedOps.contains op = true → OpKind K op
   | slot : K.ign = [] → K.strict = false → (op = "loads" ∨ op = "stores") → OpKind K op
-  | dyn : K.ign = [] → K.dyn = true → (op = "vloads" ∨ op = "vstores") → OpKind K op
+  | dyn : (K.ign = [] ∨ K.strict = true) → K.dyn = true → (op = "vloads" ∨ op = "vstores") → OpKind K op
 
 theorem primSigK_cases {K : RK} {op : String} {k p : Nat} (h : primSigK K op = some (k, p)) :
     Models.Fragment.primSig op = some (k, p) ∧ OpKind K op := by
@@ -84,7 +84,7 @@ theorem primSigK_cases {K : RK} {op : String} {k p : Nat} (h : primSigK K op = s
     split at h
     · rename_i hd
       simp only [Bool.and_eq_true, Bool.or_eq_true, beq_iff_eq] at hd
-      exact ⟨h, .dyn hI' hd.1 hd.2⟩
+      exact ⟨h, .dyn (.inl hI') hd.1 hd.2⟩
     · split at h
       · split at h
         · rename_i hop; exact ⟨h, .framed hop⟩
@@ -103,7 +103,11 @@ theorem primSigK_cases {K : RK} {op : String} {k p : Nat} (h : primSigK K op = s
         · cases h
   · split at h
     · rename_i hop; exact ⟨h, .framed hop⟩
-    · cases h
+    · split at h
+      · rename_i hd
+        simp only [Bool.and_eq_true, Bool.or_eq_true, beq_iff_eq] at hd
+        exact ⟨h, .dyn (.inr hd.1.1) hd.1.2 hd.2⟩
+      · cases h
 
 /-- **`execPrim` respects `SameW`** on the opcodes of the fragment that the machine executes under
     the same name -/
@@ -116,14 +120,17 @@ theorem execPrim_sameW {K : RK} {op : String} (hk : framedOps.contains op = true
   · subst hop; rw [hI] at hw ⊢; exact congR_stores cx imms hw st
 
 /-- the ignored slots are left alone by the opcodes of the fragment -/
-theorem execPrim_ign {K : RK} {op : String} {k p : Nat} (h : primSigK K op = some (k, p)) (cx : Ctx)
-    (imms : List String) {a a' : World} {st st' : List Val} (hA : execPrim cx op imms a st = .ok (st', a')) :
+theorem execPrim_ign {K : RK} {op : String} {k p : Nat} (hstr : K.strict = false) (h : primSigK K op = some (k, p))
+    (cx : Ctx) (imms : List String) {a a' : World} {st st' : List Val} (hA : execPrim cx op imms a st = .ok (st', a')) :
     ∀ s, s ∈ K.ign → getSlot a'.scratch s = getSlot a.scratch s := by
   intro s hs
   cases (primSigK_cases h).2 with
   | framed hf => rw [framed_scratch hf cx imms hA]
   | slot hI _ _ => rw [hI] at hs; cases hs
-  | dyn hI _ _ => rw [hI] at hs; cases hs
+  | dyn hI _ _ =>
+    rcases hI with hI | hI
+    · rw [hI] at hs; cases hs
+    · rw [hstr] at hI; cases hI
 
 /-! closed forms of the run-time addressed slot opcodes -/
 
